@@ -5,6 +5,7 @@ package p2p
 import (
 	"context"
 	"errors"
+	"io"
 	"time"
 
 	"github.com/google/uuid"
@@ -43,6 +44,8 @@ type zz17Host struct {
 	requests int
 	opens    int
 	failOpen, failWrite, shortWrite bool
+	stalled  bool          // the remote side never closes its end of a request stream
+	never    chan struct{}
 }
 
 func (h *zz17Host) ID() peer.ID { return h.id }
@@ -63,6 +66,16 @@ type zz17Stream struct {
 
 func (s *zz17Stream) Close() error { return nil }
 func (s *zz17Stream) Reset() error { return nil }
+
+// the remote side of a request stream: a regular peer reads the message and closes at once (EOF for the
+// local reader); a stalled peer keeps its side open for ever (stalled: Read never returns)
+func (s *zz17Stream) CloseWrite() error { return nil }
+func (s *zz17Stream) Read(p []byte) (int, error) {
+	if s.h.stalled {
+		<-s.h.never
+	}
+	return 0, io.EOF
+}
 func (s *zz17Stream) Write(p []byte) (int, error) {
 	req := append([]byte{}, p...)
 	s.h.requests++
@@ -102,7 +115,7 @@ func zz17New(t *zzT, inWrite bool, timeout time.Duration) (*MessageProtocol, *zz
 	if t.Symbolic() {
 		zzClockSec = 1_700_000_000
 	}
-	h := &zz17Host{id: zzPeerID(1), inWrite: inWrite, sent: make(chan []byte, 4)}
+	h := &zz17Host{id: zzPeerID(1), inWrite: inWrite, sent: make(chan []byte, 4), never: make(chan struct{})}
 	p := &Peer{logger: zzNopLogger{}, host: h, connGater: zzNewGater()}
 	mp := newMessageProtocol([]byte{1, 2, 3, 4}, "1.0")
 	mp.RegisterRPCHandler("k", func(w ResponseWriter, req *Request) {})
@@ -418,5 +431,27 @@ func zzH_C17_wait_lasts_full_timeout(t *zzT) {
 	}()
 	res, err := mp.sendRequestMessage(context.Background(), zzPeerID(0), "k", []byte{1})
 	t.Assert(err == nil && res != nil, label)
+	t.Reach("end")
+}
+
+// C17 "every request ends — within its timeout and retry budget — with a response or an error": a STALLED
+// peer (accepts the stream, reads the request, never answers and never closes its side of the stream) cannot
+// hold a request for longer than the retry budget: the request ends with the timeout error after
+// messageMaxRetries+1 attempts, and no pending entry is left. (seed C17-6 made send() wait for the remote
+// side's EOF without a deadline.)
+//
+//zz:opt loop=4000 sched=1 join=1
+//zz:stub time.Now zzStubNow
+//zz:stub time.After zz17After
+//zz:stub github.com/google/uuid.New zz17UUID
+//zz:stub github.com/libp2p/go-libp2p/core/network.WithUseTransient zzStubWithUseTransient
+func zzH_C17_stalled_peer_request_ends(t *zzT) {
+	mp, h := zz17New(t, false, 3*time.Millisecond)
+	h.stalled = true
+	h.sent = make(chan []byte, messageMaxRetries+2) // nobody answers
+	_, err := mp.request(context.Background(), zzPeerID(0), "k", []byte{t.U8("payload")})
+	t.Assert(err == errTimeout, "a request to a stalled peer ends with the timeout error")
+	t.Assert(h.requests == messageMaxRetries+1, "the retry budget is respected")
+	t.Assert(len(mp.resCh) == 0, "no pending entry is leaked")
 	t.Reach("end")
 }
